@@ -228,7 +228,13 @@ class ShelxlRefine():
                 self.pretty_shx_output(line)
         lstfile = Path(f'{self.resfile_name}.lst')
         if lstfile.exists() and lstfile.is_file():
-            self.check_refinement_results(lstfile.read_text('latin1').splitlines(keepends=False))
+            try:
+                self.check_refinement_results(lstfile.read_text('latin1').splitlines(keepends=False))
+            except Exception:
+                # The list file is only read for advice. Whatever it looks like, the status of the
+                # run still has to be evaluated and the res file restored or reloaded.
+                if self.shx.debug:
+                    raise
         # Go back to the path before
         os.chdir(current_path)
         if p.returncode != 0:
